@@ -450,3 +450,23 @@ def register_to_unstable(reg):
             notes="bare-*-identity: with the covering segments tiling [so(lo), so(lo)+PS) the base at read offset r sits at contig position so(lo)+start'+r (forward walk) "
                   "resp. so(lo)+PS-1-(start'+r) (reversed walk), which must be path_start+r resp. path_end-1-r of the input",
         ))
+
+
+def register_reverse_cigar_tokens(reg):
+    # reverse_cigar at token level: the CIGAR as its list of maximal digit / non-digit runs (length, op, length, op, ...)
+    reg.add(Contract(
+        file=UTILS, func="reverse_cigar", variant="#tokens", params=dict(cg=STR), returns=LINE,
+        ufuns={"cigar_runs": ([STR], LINE)}, locals=dict(new_cigar=LINE, all_cigars=LINE),
+        spec_funcs={"runs": "lambda: cigar_runs(cg)", "n": "lambda: len(cigar_runs(cg))"},
+        requires=["len(cigar_runs(cg)) % 2 == 0"],
+        loops={1: Loop(index="it1", fingerprint="for i in range(len(all_cigars)", invariant={
+            "pairs-so-far": "len(new_cigar) == 2 * it1",
+            "reversed-pairwise": "forall(lambda j: implies(0 <= j < it1, new_cigar[2 * j] == runs()[n() - 2 - 2 * j] and new_cigar[2 * j + 1] == runs()[n() - 1 - 2 * j]))",
+        })},
+        ensures={
+            "same-number-of-runs": "len(result) == n()",
+            "operations-in-reverse-order-each-with-its-own-length":
+                "forall(lambda j: implies(0 <= j and 2 * j < n(), result[2 * j] == runs()[n() - 2 - 2 * j] and result[2 * j + 1] == runs()[n() - 1 - 2 * j]))",
+        },
+        notes="the result is read as the token list that the string concatenation builds (one token per appended run)",
+    ))
